@@ -535,6 +535,8 @@ func vRandomMap(rng *rand.Rand) (regs []vRegion, ks, ke uint64, ok bool) {
 	cur := uint64(rng.Intn(3)) * 0x1000
 	if rng.Intn(4) == 0 {
 		cur += 0x100000000 * uint64(1+rng.Intn(1000))
+	} else if rng.Intn(6) == 0 {
+		cur += uint64(rng.Int63n(1<<51)) &^ 4095 // frame numbers far beyond 32 bits
 	}
 	if rng.Intn(8) == 0 {
 		cur = 0
@@ -552,6 +554,9 @@ func vRandomMap(rng *rand.Rand) (regs []vRegion, ks, ke uint64, ok bool) {
 		switch rng.Intn(6) {
 		case 0:
 			ln = uint64(1 + rng.Intn(4095)) // smaller than a page
+			if rng.Intn(6) == 0 {
+				ln = 0 // an empty entry
+			}
 		case 1:
 			ln = uint64(1+rng.Intn(300)) * 4096
 		default:
